@@ -26,6 +26,7 @@ from sc3.seq.patterns.filterpatterns import (Pn, Plen, Pdrop, Pstutter, Pclump, 
 from sc3.seq.patterns.valuepatterns import Pseries, Pgeom, Pwhite
 from sc3.seq.patterns.funcpatterns import Pif
 
+import operator
 INF = float('inf')
 
 # --- record the draws of every seeded generator (Routine.rand_seed = x -> random.Random(x))
@@ -72,7 +73,35 @@ def _boom(x):
     raise Boom()
 
 
+import functools
+
+
+class Wrap1(list):
+    """a user CLASS used as converter: Wrap1(x) is the list [x]"""
+    def __init__(self, x):
+        super().__init__([x])
+
+
+class _Inc:
+    def __call__(self, x):
+        return x + 1
+
+    def meth(self, x):
+        return x + 1
+
+
+# one meaning, several kinds of callable (picked per node): plain function, functools.partial,
+# bound method, callable instance, builtin function
+KINDS = {
+    'inc': [lambda x: x + 1, functools.partial(operator.add, 1), _Inc().meth, _Inc()],
+    'neg': [lambda x: -x, operator.neg, functools.partial(operator.mul, -1)],
+    'dbl': [lambda x: x * 2, functools.partial(operator.mul, 2)],
+    'pos': [lambda x: x > 0, functools.partial(operator.lt, 0)],
+}
 FUNCS = {
+    'float': float,          # a CLASS (builtin type with a signature)
+    'abs': abs,              # a builtin function
+    'wrap1': Wrap1,          # a user class
     'boom': _boom,
     'inc': lambda x: x + 1,
     'dbl': lambda x: x * 2,
@@ -82,7 +111,6 @@ FUNCS = {
     'lt3': lambda x: x < 3,
     'pos': lambda x: x > 0,
 }
-import operator
 BINOPS = {
     'add': lambda a, b: a + b, 'sub': lambda a, b: a - b, 'mul': lambda a, b: a * b,
     'div': lambda a, b: a / b, 'floordiv': lambda a, b: a // b, 'mod': lambda a, b: a % b,
@@ -203,7 +231,10 @@ def build1(e):
         return Pconst(B(e[1]), dv(e[2]), dv(e[3]))
     if k == 'Pfun':
         cls = {'collect': Pcollect, 'select': Pselect, 'reject': Preject}[e[1]]
-        return cls(FUNCS[e[2]], B(e[3]))
+        f = FUNCS[e[2]]
+        if e[2] in KINDS:
+            f = KINDS[e[2]][len(json.dumps(e)) % len(KINDS[e[2]])]
+        return cls(f, B(e[3]))
     if k == 'Pwrap':
         return Pwrap(B(e[1]), B(e[2]), B(e[3]))
     if k == 'Punop':
@@ -338,8 +369,20 @@ def run_case(c):
         snap0 = snapshot(p)
         it = iter(p)
         r_iter = take(lambda: next(it), n)
+        # a stream that signalled its end must KEEP signalling it (no silent restart), also when pulled
+        # again as an iterator
+        after = []
+        if r_iter[1] == 'stop':
+            for _ in range(3):
+                r1 = take(lambda: next(it), 1)
+                after.append([[ev(x) for x in r1[0]], r1[1]])
+        res['after_end'] = after
         s = stream(p)
         r_next = take(lambda: s.next(), n)
+        if r_next[1] == 'stop':
+            for _ in range(2):
+                r1 = take(lambda: s.next(), 1)
+                after.append([[ev(x) for x in r1[0]], r1[1]])
         # the __embed__ path of the same object (iter / stream use __stream__)
         g = _stm.embed(p, None)
         r_embed = take(lambda: next(g), n)
